@@ -182,8 +182,18 @@ def worker(args):
     return res
 
 
+def long_cases(tier):
+    """several seconds of alternating loud noise / quiet tone through every managed limit combination: the reservoirs fill and drain,
+    so the limit logic (truncation only under a hard maximum, padding under a minimum) is really exercised"""
+    out = []
+    for rate, ch, per in ((8000, 1, 16000), (44100, 2, 128000)) + (((22050, 2, 64000), (16000, 1, 28000)) if tier == 'thorough' else ()):
+        for (mx, nom, mn) in ((-1, per, -1), (-1, per, per // 2), (-1, -1, per // 2), (per, -1, -1), (per * 3 // 2, per, per // 2), (per, per, per)):
+            out.append(dict(rate=rate, ch=ch, mode='m', q=0, max=mx, nom=nom, min=mn, ctl='-', sig='alt', n=rate * (6 if rate > 20000 or tier == 'thorough' else 8)))
+    return out
+
+
 def all_cases(tier):
-    cases = []
+    cases = long_cases(tier)
     for c in configs(tier):
         for sg in signals(tier):
             d = dict(c)
